@@ -95,6 +95,19 @@ def run(chk: Check):
             for node, why in st:
                 bad.append((node, f"{qq}: {why}"))
         n_funcs += len(checked)
+        # a handler on the read path can turn an I/O or look-up error into silently different data
+        for q in sorted(closure):
+            r2, _, qq = q.partition("::")
+            if qq.endswith("__init__") or not chk.prog.has_func(r2, qq) or qq.split(".")[-1] in ("open_parent",):
+                continue
+            cx = chk.func(r2, qq)
+            for t_ in _own_nodes(cx.func):
+                if isinstance(t_, ast.Try):
+                    swallow = [h for h in t_.handlers if not any(isinstance(x, ast.Raise) for s_ in h.body for x in ast.walk(s_))]
+                    chk.decide(not swallow, "K-PATH", f"read-path-no-swallowing-handler:{cname}", t_,
+                               "handlers on the read path re-raise" if not swallow else
+                               f"{qq}: `except {ast.unparse(swallow[0].type) if swallow[0].type else ''}` on the read path swallows a failure and "
+                               "continues with substitute data", nontrivial=False)
         if bad:
             for node, why in bad:
                 chk.violated("K-PURE", f"read-path-pure:{cname}", node, why + " - a later read can observe an earlier one")
